@@ -133,6 +133,7 @@ class MemTransport(asyncio.Transport):
         self.opened_at = loop.time()
         self._inflight: list = []
         self._seq = 0
+        self._last_when = 0.0
 
     # asyncio.Transport surface used by msmart
     def get_extra_info(self, name, default=None):
@@ -197,7 +198,9 @@ class MemTransport(asyncio.Transport):
         (asyncio's timer heap is not FIFO for equal deadlines, so ordering is kept here)."""
         import heapq
         self._seq += 1
-        when = self._loop.time() + max(0.0, delay)
+        # a TCP stream is ordered: bytes written later never overtake bytes written earlier
+        when = max(self._loop.time() + max(0.0, delay), self._last_when)
+        self._last_when = when
         heapq.heappush(self._inflight, (when, self._seq, data))
         self._loop.call_at(when, self._deliver_due)
 
